@@ -255,6 +255,13 @@ pub fn gate_parked(name: &str) -> u64 {
         .unwrap_or(0)
 }
 
+/// Stop parking new arrivals; tasks already parked stay parked until released.
+pub fn gate_disarm(name: &str) {
+    if let Some(g) = gate_get(name) {
+        g.state.lock().unwrap().armed = false;
+    }
+}
+
 /// Disarm and release everything parked at the gate.
 pub fn gate_release(name: &str) {
     if let Some(g) = gate_get(name) {
